@@ -98,8 +98,18 @@ func VSnapStep(g VSnap) {
 			snap = g.Keys()
 		}
 		copyOf := vClone(snap)
+		// the caller may also have appended within the snapshot's spare capacity: that element is the caller's too
+		var ext []int
+		wa := 0
+		if cap(snap) > len(snap) {
+			wa = v.Int("wa")
+			ext = append(snap, wa)
+		}
 		j := v.Split(v.IntIn("mut", 0, len(g.Mutate)-1), 0, len(g.Mutate)-1)
 		g.Mutate[j]()
+		if ext != nil {
+			v.Assert(ext[len(ext)-1] == wa, "C16:element-appended-to-a-snapshot-overwritten-by-the-container")
+		}
 		v.Assert(len(snap) == len(copyOf), "C16:earlier-snapshot-changed-by-later-mutation")
 		for i := range copyOf {
 			v.Assert(snap[i] == copyOf[i], "C16:earlier-snapshot-changed-by-later-mutation")
